@@ -3721,7 +3721,7 @@ rfbSendCopyRegion(rfbClientPtr cl,
 
     /* correct for the scale of the screen */
     dx = ScaleX(cl->screen, cl->scaledScreen, dx);
-    dy = ScaleX(cl->screen, cl->scaledScreen, dy);
+    dy = ScaleY(cl->screen, cl->scaledScreen, dy);
 
     while(sraRgnIteratorNext(i,&rect1)) {
       x = rect1.x1;
